@@ -287,6 +287,7 @@ func checkC02(w *World, r *Report) {
 		nodeType[n.Obj().Name()] = true
 	}
 	nodeType["ExpressionNode"] = true
+	confined := w.confinedTypes()
 	isShared := func(owner string, root ssa.Value) bool {
 		if _, isG := root.(*ssa.Global); isG {
 			// sync.Pool variables synchronise themselves
@@ -295,7 +296,7 @@ func checkC02(w *World, r *Report) {
 			}
 			return true
 		}
-		if classLocal[owner] || nodeType[owner] {
+		if classLocal[owner] || nodeType[owner] || confined[owner] {
 			return false
 		}
 		return !isFreshRoot(root)
@@ -538,3 +539,118 @@ func derivesFromEngineField(v ssa.Value, seen map[ssa.Value]bool, depth int) str
 
 // curWorld: the program under analysis, for helpers that need the call graph.
 var curWorld *World
+
+// confinedTypes: named struct types of the package whose values never leave the goroutine that
+// created them — no value of type T or *T is ever stored into a field, an element, a map, a
+// package variable or a channel, converted to an interface, captured by a goroutine, or put into
+// a pool.  Such values live in locals, parameters and results only (a helper struct that groups
+// the locals of one call), so accesses to their fields cannot race.
+func (w *World) confinedTypes() map[string]bool {
+	if w.confinedMemo != nil {
+		return w.confinedMemo
+	}
+	isT := func(t types.Type) *types.Named {
+		n, ok := deref(t).(*types.Named)
+		if !ok || n.Obj().Pkg() == nil || n.Obj().Pkg().Path() != twigPath {
+			return nil
+		}
+		if _, isSt := n.Underlying().(*types.Struct); !isSt {
+			return nil
+		}
+		return n
+	}
+	escapes := map[string]bool{}
+	created := map[string]bool{}
+	mark := func(v ssa.Value) {
+		if n := isT(v.Type()); n != nil {
+			escapes[n.Obj().Name()] = true
+		}
+	}
+	for _, fn := range w.pkgFuncs() {
+		instrsOf(fn, func(in ssa.Instruction) {
+			switch x := in.(type) {
+			case *ssa.Alloc:
+				if n := isT(x.Type()); n != nil {
+					created[n.Obj().Name()] = true
+				}
+			case *ssa.Store:
+				if _, isLocal := x.Addr.(*ssa.Alloc); !isLocal {
+					mark(x.Val)
+				} else if al := x.Addr.(*ssa.Alloc); al.Heap {
+					// a heap local captured by closures is still this call's, unless a goroutine takes it
+				}
+			case *ssa.MapUpdate:
+				mark(x.Value)
+				mark(x.Key)
+			case *ssa.Send:
+				mark(x.X)
+			case *ssa.MakeInterface:
+				mark(x.X)
+			case *ssa.Go:
+				for _, a := range x.Call.Args {
+					mark(a)
+				}
+			case *ssa.Call:
+				// append(slice of T, …) stores T values into a slice
+				if b, ok := x.Call.Value.(*ssa.Builtin); ok && b.Name() == "append" && len(x.Call.Args) > 0 {
+					if sl, ok := x.Call.Args[0].Type().Underlying().(*types.Slice); ok {
+						if n := isT(sl.Elem()); n != nil {
+							escapes[n.Obj().Name()] = true
+						}
+					}
+				}
+			}
+		})
+	}
+	// types that occur as field / element types of other types can be reached through those
+	sc := w.TPkg.Scope()
+	for _, nm := range sc.Names() {
+		tn, ok := sc.Lookup(nm).(*types.TypeName)
+		if !ok {
+			continue
+		}
+		var visit func(t types.Type, depth int)
+		visit = func(t types.Type, depth int) {
+			if depth > 4 {
+				return
+			}
+			switch u := t.Underlying().(type) {
+			case *types.Struct:
+				for i := 0; i < u.NumFields(); i++ {
+					ft := u.Field(i).Type()
+					if n := isT(ft); n != nil && n.Obj() != tn {
+						escapes[n.Obj().Name()] = true
+					}
+					switch e := ft.Underlying().(type) {
+					case *types.Slice:
+						if n := isT(e.Elem()); n != nil {
+							escapes[n.Obj().Name()] = true
+						}
+					case *types.Map:
+						if n := isT(e.Elem()); n != nil {
+							escapes[n.Obj().Name()] = true
+						}
+					}
+				}
+			}
+		}
+		visit(tn.Type(), 0)
+	}
+	// package-level variables of the type
+	for _, nm := range sc.Names() {
+		if v, ok := sc.Lookup(nm).(*types.Var); ok {
+			if n := isT(v.Type()); n != nil {
+				escapes[n.Obj().Name()] = true
+			}
+		}
+	}
+	out := map[string]bool{}
+	for t := range created {
+		// exported types are handed to the package's users, who may share them
+		if !escapes[t] && !token.IsExported(t) {
+			out[t] = true
+		}
+	}
+	w.confinedMemo = out
+	return out
+}
